@@ -1017,7 +1017,9 @@ impl<'a> Gen<'a> {
                     .into_iter()
                     .filter(|v| v.exact && matches!(&v.ty, Ty::Union(ms) if ms.iter().all(|m| matches!(m, Ty::Int | Ty::Bool | Ty::Str | Ty::Float))))
                     .collect();
-                if !unions.is_empty() && self.tape.chance(1, 2) {
+                // (only inside function bodies: at the top level a REPL session knows such a variable by its
+                // value, and the type of the cell follows - recorded finding of C17)
+                if self.fn_ret.is_some() && !unions.is_empty() && self.tape.chance(1, 2) {
                     let u = unions[self.tape.below(unions.len())].clone();
                     self.label("cell without a declared type from a union-typed variable");
                     self.declare(&name, Ty::cell(u.ty.clone()));
